@@ -14,7 +14,7 @@ func init() {
 func decConfigs(c *core.Check) []map[string]string {
 	cfgs := []map[string]string{{"MaxSpecD": "1", "MaxItems": "2"}, {"MaxSpecD": "2", "MaxItems": "1"}}
 	if c.Tier == "thorough" {
-		cfgs = []map[string]string{{"MaxSpecD": "2", "MaxItems": "2"}, {"MaxSpecD": "1", "MaxItems": "3"}}
+		cfgs = []map[string]string{{"MaxSpecD": "2", "MaxItems": "2"}}
 	}
 	c.Extra["constants"] = cfgs
 	return cfgs
@@ -24,6 +24,6 @@ func runC08(c *core.Check) {
 	c.Rule = "every well-formed spec tree of depth <= MaxSpecD over all 17 spec kinds x every body of <= MaxItems items (attributes of several literal types incl. null, extraneous attribute/block, blocks with 0..2 labels and 7 inner bodies incl. nested blocks): Decode and PartialDecode do not panic, the value's type conforms to ImpliedType, ImpliedType equals the model's, and error-ness/value equal HclDec.tla's Decode. Non-trivial = distinct (spec, body)"
 	c.Assumes = []string{"documented preconditions respected: label specs only inside block specs, default has its primary's type, no dynamic types inside BlockMapSpec, one label count per block type and body", "model results that need type unification of differing element types are oom (type relation still checked)"}
 	for _, consts := range decConfigs(c) {
-		streamTLC(c, core.TLCRun{Module: "MC_Dec", Consts: consts, Timeout: minutes(25)}, func(st core.State) { c08.Handle(c, st) })
+		streamTLC(c, core.TLCRun{Module: "MC_Dec", Parts: 4, Consts: consts, Timeout: minutes(25)}, func(st core.State) { c08.Handle(c, st) })
 	}
 }
